@@ -51,6 +51,31 @@ META.update({
 })
 CLAIMED += ["C02", "C06", "C12", "C13", "C15", "C16", "C17", "C19", "C20"]
 
+META.update({
+ "C03": dict(technique="interprocedural string-provenance (taint) abstract interpretation to raw-markup sinks; replacement-table rule; blank-line structural rule",
+    text="Decides: on every flow from caption TEXT to a raw sink of the three DFXP writers and the SAMI writer (tag.string with prettify(formatter=None)) and to the WebVTT document, the context's sanitiser is applied exactly once (zero = injection, two = double escaping), recognised by what the sanitiser does (escape(), replace chains), not by its name; the WebVTT encoder's table neutralises & < --> with '&' first; a BREAK can never produce an empty line in SRT / WebVTT / MicroDVD (placeholder guards, newline-collapse loops). Not decided: what a conformant parser makes of the output.",
+    note="Trusted: bs4 formatter=None substitutes nothing; saxutils.escape replaces & < >; the abstract interpreter's library summaries (sa/engines/absint_lib.py); unresolved calls are havocked (counted in the evidence)."),
+ "C04": dict(technique="regular-language inclusion/equality on re._parser ASTs (shortest witness) + decode-once structural rules on the two-stage SAMI parse",
+    text="Decides: SAMI hands references of markup characters (&amp; &lt; numeric) to the second parser still encoded and looks entity names up verbatim; WebVTT decodes '&amp;' last and its table inverts the writer's encoder on the hazard set; the &apos; workaround cannot create a reference; the DFXP/SAMI text-capture pattern is checked for totality (it is not: known finding with witness 'a\\na'); a text node is dropped only when nothing matched; OTHER_SPAN_PATTERN / VOICE_SPAN_PATTERN equal the reference WebVTT tag language; numeric references (known finding); br / '|' / newline become BREAK nodes. Not decided: parser libraries' entity tables, nesting, whitespace.",
+    note="Trusted: the reference WebVTT tag language in the check; html.parser calls the handlers as documented."),
+ "C07": dict(technique="taint abstract interpretation over ALL model strings to raw sinks; flag-automaton (typestate) extraction of the span routine; dominance/ordering path rules",
+    text="Decides: every model string (text, style values, class names, style ids, language codes, the force option) reaching a raw sink of DFXPWriter / SinglePositioningDFXPWriter / LegacyDFXPWriter is escaped exactly once for that sink's context (hand-written double-quoted attributes need \" too); the span routine's extracted (state x input)->(tokens,state) table alternates <span>/</span> for EVERY node sequence; style= / region= references are written only after the lookup of that id in the document; every positioning query marks its region, create->queries->cleanup->serialise, clean-up iterates a materialised list; one div per language and one p(begin,end) per caption. Not decided: id uniqueness/NCName-ness, XML character range.",
+    note="Trusted: as C03; the region bookkeeping of bs4 find()."),
+ "C08": dict(technique="sibling cross-checks between each writer and the reader of the same format (language inclusion, exactness kinds, inverse tables)",
+    text="Decides only the pairwise agreement clauses: the stamp language every writer prints is inside what its reader accepts (DFXP, WebVTT stamp and timing line, MicroDVD line, SRT fields, SAMI integers); the readers are exact on the writers' grid (no truncation of twice-rounded floats in SRT/MicroDVD, same default frame rate on both sides, the MicroDVD rate header needs BOTH fields 0); WebVTT encode/decode tables are mutual inverses with '&' first/last; style vocabularies agree. Equality after a chain and idempotence are NOT decided.",
+    note="Trusted: as C01-C04."),
+ "C09": dict(technique="interprocedural effect analysis (ownership regions, per-call state, shared-object mutation, set-order flows) by abstract interpretation of every writer's write()",
+    text="Decides, for the nine discovered writers: no mutation site is reachable whose receiver may be reachable from the caption-set argument (deepcopy moves the name to a COPY region; copy hooks on model classes are forbidden), no writer attribute written or mutated during write() is read in its left-over value, no module-/class-level object is mutated, no hash-ordered set is iterated into the output, no clock/random/environment call; geometry methods never store through self/parameters/aliases. Byte identity across processes as such is not decided.",
+    note="Trusted: deepcopy semantics; bs4/lxml serialise deterministically; calls the analysis cannot resolve are havocked and counted (0 on the pinned tree)."),
+ "C11": dict(technique="table folds of the style vocabularies, flag-automaton product with the flat-span grammar, ordering rules on the italics pipeline",
+    text="Decides: italics/bold/underline map to the same CSS property / TTML attribute / WebVTT tag on the writer and reader side (folded over the finite key set); the extracted span automata of DFXPWriter, LegacyDFXPWriter and SAMIWriter (with its helper inlined) stay balanced on every word of the flat-span grammar (start end)*; WebVTT closes tags in reverse order at node and cue level; SCC nodes leave a buffer only through _format_italics, every italics-opening pass precedes the closing pass and the repositioning pass keeps its tracker consistent; style resolution mutates no shared object and translates every inline declaration. Not decided: that the same characters are styled after a trip.",
+    note="Trusted: -"),
+ "C14": dict(technique="set-order effect analysis + def-use identity of language labels + structural fallback/neighbour rules",
+    text="Decides: no reader or writer iterates a hash-ordered set of languages; inside every language loop the caption lookup and the label use the loop's own language variable; a DFXP div without xml:lang falls back to a loop-invariant value computed from tt/xml:lang then DEFAULT_LANGUAGE_CODE; force selects only a present language; WebVTT's lang option is replaced only when None; a SAMI sync for a secondary language is inserted after the last earlier / before the first later sync. SAMI sync ordering for arbitrary interleavings is not decided.",
+    note="Trusted: dict preserves insertion order."),
+})
+CLAIMED += ["C03", "C04", "C07", "C08", "C09", "C11", "C14"]
+
 def main():
     props = [json.loads(l) for l in open(f"{V}/properties.jsonl")]
     checks, na = [], []
